@@ -10,6 +10,7 @@ A violation is suppressed (printed as KNOWN-FINDING, exit status unaffected) onl
 if its oracle-computed signature equals the ``signature`` of an entry for the
 same property.  ``fixed`` lines suppress nothing.
 """
+import fnmatch
 import json
 import os
 
@@ -19,8 +20,28 @@ def load(path, prop):
         return {}
     with open(path) as f:
         doc = json.load(f)
-    out = {}
+    out = Findings()
     for e in doc.get('findings', []):
         if e.get('property') == prop:
             out[e['signature']] = e
     return out
+
+
+class Findings(dict):
+    """signature -> entry; an entry signature may use fnmatch wildcards ('*') for one narrow family"""
+
+    def get(self, sig, default=None):
+        if sig in self:
+            return self[sig]
+        for pat, e in self.items():
+            if '*' in pat and fnmatch.fnmatchcase(sig, pat):
+                return e
+        return default
+
+    def pattern_of(self, sig):
+        if sig in self:
+            return sig
+        for pat in self:
+            if '*' in pat and fnmatch.fnmatchcase(sig, pat):
+                return pat
+        return None
